@@ -33,6 +33,9 @@ class StreamNode(ConfigList):
         # hand its own "do not delete" flag down to them (it would turn off list replacement inside them)
         ret = super()._get_child_kwargs(child)
         ret.pop('implicit_delete', None)
+        # (likewise "!notnew" from above the include: the documents are merged with each other on their own first,
+        # what it forbids is creating paths in the config the merged content is placed in - see on_premerge_impl)
+        ret.pop('implicit_allow_new', None)
         return ret
 
     @namespace('ayns')
@@ -44,6 +47,10 @@ class StreamNode(ConfigList):
             self.builder.stages.append(ConfigDict({}, **self._get_child_kwargs()))
         self.builder.flatten()
         merged = self.builder.stages[0]
+        allow_new = super()._get_child_kwargs().get('implicit_allow_new')
+        if allow_new is not None and merged._implicit_allow_new != allow_new:
+            merged._implicit_allow_new = allow_new
+            merged._propagate_implicit_values()
         if self._priority is not None:
             # a priority given to the include applies to the merged content as a whole, the priorities
             # written in the included documents have decided among them by now
